@@ -1,5 +1,24 @@
 /-
 C11 — results are equivariant under reordering of elements and of phases.
+
+Property theorems about `KawinV.Permute` (the sortIndices / unsortIndices wrappers of
+kawin/thermo/Thermodynamics.py, MultiTherm.py, diffusion/DiffusionParameters.py) and `KawinV.DtRules`
+(the per-phase loops of Constraints.computeDTfrom…, PrecipitateModel.getDt and _calcNucleationSites);
+both models are tied to the source by tools/corr/C11.py.
+
+* inverse permutation: `unsort_take_sort`, `sort_take_unsort`, `unsort_rows_cols`
+* element equivariance for an ARBITRARY backend: `wrapVec_equivariant`, `wrapMat_equivariant` (P·D·Pᵀ),
+  `wrapVecRef_equivariant`, `wrapVecFull_equivariant` (reference element in front), `byName_equivariant`,
+  `matVec_equivariant` (D·∇x commutes with a re-listing); key lemmas `unsort_eq_rank`, `unsort_take`,
+  `sorted_data_invariant`
+* per-phase step-size rules under `List.Perm` of the phase list: `dtPSD_perm`, `dtNuc_perm`, `dtRcrit_perm`,
+  `dtVolume_perm` (repaired code), `dtVolume_le`; the code as it WAS: `dtVolumeOld_order_dependent` (negative
+  witness), `dtVolumeOld_last`, `dtVolumeOld_partial`
+* `getDt_perm`, site competition `calcSites_perm` / `calcSites_others`, whole step `stepSummary_perm`,
+  `stepSummary_equivariant`
+
+Keys are any linear order, scalars any linearly ordered field.  Floating point and pycalphad are monitored
+by the oracle only (see META in tools/corr/C11.py).
 -/
 import KawinV.Model.Permute
 import KawinV.Model.DtRules
